@@ -137,9 +137,9 @@ def check_means(ctx):
 def run(ctx):
     model = ctx.model
     c = model.cls("POO")
-    c09.check_form(ctx, "POO")
-    c09.check_learner_construction(ctx, "POO", "R10-FORM")
-    RT.check_route(ctx, c, "R10-ROUTE")
+    ctx.attempt("R10-FORM", c.file, "POO.__init__", "schedule constants", c09.check_form, ctx, "POO")
+    ctx.attempt("R10-FORM", c.file, "POO.pull", "learner construction", c09.check_learner_construction, ctx, "POO", "R10-FORM")
+    ctx.attempt("R10-ROUTE", c.file, "POO", "routing", RT.check_route, ctx, c, "R10-ROUTE")
     # the creation/round-robin decision is literally the same test in both methods
     pull = model.own_method("POO", "pull")
     rr = model.own_method("POO", "receive_reward")
@@ -156,9 +156,9 @@ def run(ctx):
     ctx.ob("R10-FORM", ok and okf, c.file, "POO", "creation vs round-robin: N <= 0.5*Dmax*ln(n/ln n), same test in pull and receive_reward",
            norm_src(t1.test) if ok else "pull tests '%s', receive_reward tests '%s'" % (norm_src(getattr(t1, "test", t1)), norm_src(getattr(t2, "test", t2))),
            pull.lineno)
-    check_append_only(ctx)
-    check_index(ctx)
-    check_means(ctx)
+    ctx.attempt("R10-APPEND", c.file, "POO", "learner lists", check_append_only, ctx)
+    ctx.attempt("R10-IDX", c.file, "POO.receive_reward", "indices", check_index, ctx)
+    ctx.attempt("R10-MEAN", c.file, "POO.receive_reward", "running means", check_means, ctx)
     from . import c07, c15
     tmp = Ctx(ctx.prop, ctx.tier, ctx.seed, model)
     c07.check_wrappers(tmp)
